@@ -24,6 +24,21 @@ type filterIn struct {
 	All      bool     `json:"all"`
 }
 
+// labelSet: the label sets of NodeSelect.tla by code ("" none, "k" {k=v}, "m" {m=""}, "km" both, "k0" {k=""})
+func labelSet(code string) map[string]string {
+	switch code {
+	case "k":
+		return map[string]string{"k": "v"}
+	case "m":
+		return map[string]string{"m": ""}
+	case "km":
+		return map[string]string{"k": "v", "m": ""}
+	case "k0":
+		return map[string]string{"k": ""}
+	}
+	return map[string]string{}
+}
+
 func buildSelectUniverse(t *testing.T, e *Env) {
 	ctx := Op("setup")
 	must := func(err error) {
@@ -36,12 +51,7 @@ func buildSelectUniverse(t *testing.T, e *Env) {
 	_, err = e.Cal.AddPod(ctx, "p2", "")
 	must(err)
 	res, _ := nodeResources("plain2")
-	lab := func(l string) map[string]string {
-		if l == "" {
-			return map[string]string{}
-		}
-		return map[string]string{l: "v"}
-	}
+	lab := labelSet
 	for _, n := range []struct{ name, pod, lab string }{{"n1", "p1", "k"}, {"n2", "p1", ""}, {"n3", "p1", ""}, {"n2b", "p2", "k"}} {
 		_, err := e.Cal.AddNode(ctx, &coretypes.AddNodeOptions{Nodename: n.name, Endpoint: "mock://" + n.name, Podname: n.pod, Resources: res, Labels: lab(n.lab)})
 		must(err)
@@ -52,7 +62,7 @@ func buildSelectUniverse(t *testing.T, e *Env) {
 	for _, n := range []struct {
 		name, lab     string
 		bypass, alive bool
-	}{{"n4", "k", false, false}, {"n5", "", true, true}, {"n6", "", false, true}} {
+	}{{"n4", "k", false, false}, {"n5", "m", true, true}, {"n6", "km", false, true}} {
 		_, err := e.Rmgr.AddNode(ctx, n.name, res, nil)
 		must(err)
 		node, err := e.Raw.AddNode(ctx, &coretypes.AddNodeOptions{Nodename: n.name, Endpoint: "tcp://127.0.0.1:1", Podname: "p1", Labels: lab(n.lab)})
@@ -81,10 +91,7 @@ func TestClusterSelect(t *testing.T) {
 		vt.MustUnmarshal(t, raw, &f)
 		run++
 		g.Reset(0, 0)
-		labels := map[string]string{}
-		if f.Label != "" {
-			labels[f.Label] = "v"
-		}
+		labels := labelSet(f.Label)
 		opts := env.deployOpts("a", "p1", nil, strategy.Dummy, 1, 0, "u")
 		opts.NodeFilter = &coretypes.NodeFilter{Podname: f.Pod, Includes: f.Includes, Excludes: f.Excludes, Labels: labels, All: f.All}
 		msg, err := env.Cal.CalculateCapacity(Op("op"), opts)
